@@ -80,7 +80,72 @@ def oracle(run):
     return v
 
 
+def big_manifest(R, dud, drv, rng):
+    """a flat directory of 28000 entries: its old-schema manifest (about 4.5 MB) is half as large again as the current-schema one
+    (about 2.9 MB); checkout, status and a recommit from the old-schema cache must work exactly as from the current one.
+    (Direct CLI run with its own light-weight observation: entry count, link targets, exit codes.)"""
+    import os, shutil, tempfile
+    base = tempfile.mkdtemp(prefix="c20big.", dir=vlib.scratch())
+    n = 28000
+    try:
+        res = {}
+
+        def one(twin):
+            b3 = s1.B3(drv)
+            proj = s1.Project(dud, os.path.join(base, twin), remote=False)
+            proj.timeout = 600
+            d = os.path.join(proj.root, "many")
+            os.makedirs(d)
+            for j in range(n):
+                with open(os.path.join(d, "f%05d" % j), "wb") as f:
+                    f.write(b"x" * (j % 3))
+            proj.write_stage(b"many.yaml", dict(cmd=b"", wd=b".", out=[(b"many", "d")]))
+            proj.write_index()
+            rcs = [("commit", proj.dud(["commit"], cwd=proj.root)[0])]
+            sizes = []
+            if twin == "old":
+                s1.convert_old_schema(proj, b3)
+            for hh in os.listdir(proj.cache):
+                for rest in os.listdir(os.path.join(proj.cache, hh)):
+                    sizes.append(os.path.getsize(os.path.join(proj.cache, hh, rest)))
+            shutil.rmtree(d)
+            rc, so, se = proj.dud(["checkout"], cwd=proj.root)
+            rcs.append(("checkout", rc, se.decode(errors="replace")[-200:] if rc else ""))
+            entries = len(os.listdir(d)) if os.path.isdir(d) else -1
+            resolved = sum(1 for x in (os.listdir(d) if os.path.isdir(d) else []) if os.path.exists(os.path.join(d, x)))
+            rc, so, se = proj.dud(["status"], cwd=proj.root)
+            rcs.append(("status", rc, so.decode(errors="replace")[-120:]))
+            with open(os.path.join(d, "added.txt") if os.path.isdir(d) else os.devnull, "wb") as f:
+                f.write(b"new")
+            rc, so, se = proj.dud(["commit"], cwd=proj.root)
+            rcs.append(("recommit", rc, se.decode(errors="replace")[-200:] if rc else ""))
+            rec = open(os.path.join(proj.root, "many.yaml")).read()
+            res[twin] = dict(rcs=rcs, entries=entries, resolved=resolved, largest_object=max(sizes) if sizes else 0, recorded=rec)
+            proj.cleanup()
+            b3.close()
+        from concurrent.futures import ThreadPoolExecutor
+        with ThreadPoolExecutor(max_workers=2) as ex:
+            list(ex.map(one, ("old", "new")))
+        R.count("big-manifest", True)
+        o, nw = res["old"], res["new"]
+        bad = []
+        if [x[:2] for x in o["rcs"]] != [x[:2] for x in nw["rcs"]]:
+            bad.append("exit codes differ: old-schema cache %s, current-schema cache %s" % (o["rcs"], nw["rcs"]))
+        if (o["entries"], o["resolved"]) != (nw["entries"], nw["resolved"]) or nw["entries"] != n:
+            bad.append("checkout restored %d entries (%d resolving) from the old-schema cache, %d (%d) from the current one, committed %d" % (
+                o["entries"], o["resolved"], nw["entries"], nw["resolved"], n))
+        if o["recorded"] != nw["recorded"]:
+            bad.append("the recommit on top of the old-schema manifest records another checksum than on top of the current one")
+        R.cov["big_manifest_bytes"] = dict(old=o["largest_object"], new=nw["largest_object"])
+        if bad:
+            R.violation(dict(kind="property-violated-on-implementation", scenario="directory with %d entries: old-schema manifest of %d bytes vs current-schema %d bytes" % (
+                n, o["largest_object"], nw["largest_object"]), violations=bad))
+    finally:
+        shutil.rmtree(base, ignore_errors=True)
+
+
 def twins(R, dud, drv, rng, tier, runs):
+    big_manifest(R, dud, drv, rng)
     by = {}
     for r in runs:
         by.setdefault(r["case"]["group"], {})[r["case"]["twin"]] = r
